@@ -70,6 +70,28 @@ pub fn build(raw: &Raw, _tier: Tier, _sched: bool) -> Scenario {
             b.s.threads[th].insert(at, op);
         }
     }
+    // a quarter of the cases: a permanent subscriber dispatches follow-ups into the store from
+    // inside on_notify (drop policy or a queue that cannot fill: a reducer-context dispatch into a
+    // full blocking queue would be the self-deadlock C13 excludes) - possibly while another
+    // thread is inside stop()
+    if knob(raw, 8) % 4 == 0 {
+        let acts: Vec<ActId> = b.s.threads.iter().flatten().filter_map(|o| match o { Op::Dispatch { act, .. } => Some(*act), _ => None }).collect();
+        if !acts.is_empty() {
+            if b.s.stores[s].policy == Pol::Block {
+                b.s.stores[s].capacity = 512;
+            }
+            let host = b.sub(SubKind::Direct);
+            b.s.prelude.push(Op::Subscribe { store: s, sub: host });
+            for j in 0..1 + (knob(raw, 9) % 3) as usize {
+                let trigger = acts[pick(knob(raw, 10).rotate_left(4 * j as u32), acts.len())];
+                if b.sub_mut(host).on_notify_ops.iter().any(|(t, _)| *t == trigger) {
+                    continue;
+                }
+                let f = b.action(s, j as u8);
+                b.sub_mut(host).on_notify_ops.push((trigger, vec![Op::Dispatch { act: f, via: VIAS[(knob(raw, 11) as usize + j) % 3] }]));
+            }
+        }
+    }
     b.s.epilogue.push(Op::Stop { store: s, via_trait: false });
     b.s.epilogue.push(Op::GetState { store: s });
     b.finish()
@@ -77,7 +99,7 @@ pub fn build(raw: &Raw, _tier: Tier, _sched: bool) -> Scenario {
 
 pub fn check(scn: &Scenario, h: &History) -> Outcome {
     let mut out = Outcome::default();
-    let Some((d, p)) = prepare("C01", false, scn, h, &mut out) else { return out };
+    let Some((d, p)) = prepare("C01", true, scn, h, &mut out) else { return out };
     for m in findings_of(&p, &[Kind::Fold]) {
         out.viol(m);
     }
@@ -160,7 +182,7 @@ pub fn check(scn: &Scenario, h: &History) -> Outcome {
 
 pub static PROFILE: Profile = Profile {
     id: "C01",
-    rule: "proptest scenarios: 1-4 producer threads, 0-3 build-time reducers (0 = a store created without a reducer, then observed through one permanent subscriber; + up to 2 added at run time), Dispatch/Keep mixes, effects incl. follow-up actions, vetoing middleware, capacity 1-16, all policies, concurrent get_state/add_subscriber, optional racing stop() or close() (followed by the final stop()). Non-trivial = pipeline order interleaves >= 2 producers (more producer switches than producers) OR some action went through a chain of >= 2 reducers containing a Keep; distinct by scenario hash.",
+    rule: "proptest scenarios: 1-4 producer threads, 0-3 build-time reducers (0 = a store created without a reducer, then observed through one permanent subscriber; + up to 2 added at run time), Dispatch/Keep mixes, effects incl. follow-up actions, vetoing middleware, capacity 1-16, all policies, concurrent get_state/add_subscriber, optional racing stop() or close() (followed by the final stop()); in a quarter of the cases a permanent subscriber dispatches follow-ups from inside on_notify. Non-trivial = pipeline order interleaves >= 2 producers (more producer switches than producers) OR some action went through a chain of >= 2 reducers containing a Keep; distinct by scenario hash.",
     raw,
     build,
     check,
